@@ -30,6 +30,7 @@ FAMILIES = {
     "sse": ("grow_sse", "app/sse: SSE client framing / reconnect loop (real net/http over net.Pipe in synctest) + listener: head / chain_reorg delivery to subscribers, reorg de-duplication across beacon nodes, delay metrics, gossip-time bookkeeping and trim, malformed events, connection life cycle; 4 findings"),
     "vapirouter": ("grow_vapirouter", "HTTP layer of the validator API (core/validatorapi/router.go): routing table vs proxy, per-endpoint parsing (json / ssz per fork) and response / error writing, events reverse proxy, context propagation; TLC-enumerated request shapes x one alteration on the real NewRouter over httptest"),
     "roundtimer": ("grow_roundtimer", "core/consensus/timer: round timer policies (increasing / eager double-linear / linear), GetRoundTimerFunc flag selection, per-round deadline memory and doubling, absolute vs relative deadlines, stop / fire-once / leak accounting on real timer objects"),
+    "depositflow": ("grow_depositflow", "deposit sign / deposit fetch CLI + obolapi PostPartialDeposits / GetFullDeposit + eth2util/deposit against a scripted API: threshold-backed, group-key-verified deposits only, no mixing of messages, all-or-nothing fetch, whole-file replace per amount, amount and credentials rules"),
     "retry": ("grow_retry", "app/retry + core/retry.go: backoff, duty-deadline context, error classes, Shutdown accounting, wired edges"),
 }
 
